@@ -29,10 +29,20 @@ func c10Prefix(B string, o fsx.Op) fsx.Op {
 
 func c10History(c *rt.Ctx, fsType string, h int) {
 	r := c.Rand(fmt.Sprintf("c10-%s-%d", fsType, h))
-	B := []string{"/BASE", "/BASE/sub", "/x/BASE"}[r.IntN(3)]
+	// the last spelling is a directory name made of pattern metacharacters: a base path is a name, never a pattern
+	B := []string{"/BASE", "/BASE/sub", "/x/BASE", "/x/[ab]"}[r.IntN(4)]
 	base := newBase(fsType)
 	ref := newBase(fsType)
 	_ = base.MkdirAll(B, 0o755)
+	if B == "/x/[ab]" {
+		// what the name would match if it were read as a pattern holds the names of the workload
+		for _, d := range []string{"/x/a", "/x/b"} {
+			_ = base.MkdirAll(d+"/w/a", 0o755)
+			for _, f := range []string{"/w/b", "/w/c", "/w/a/a", "/a", "/b"} {
+				_ = base.WriteFile(d+f, []byte(c10Canary+"-bytes"), 0o644)
+			}
+		}
+	}
 	// B gets the system directories of a standalone file system so that TempDir()-based calls agree
 	for _, d := range []struct {
 		p string
@@ -111,7 +121,7 @@ func c10History(c *rt.Ctx, fsType string, h int) {
 		c.Rep.Inconclusive = append(c.Rep.Inconclusive, "set-up trees differ (harness): "+fmt.Sprint(fsx.Diff(insideSnap(), fsx.Snap(ref, "/", fsx.SnapOpts{}), false, 4)))
 		return
 	}
-	gcfg := gen.Cfg{Root: "/w", Names: []string{"a", "b", "c"}, Depth: 3, NoChange: true, Links: true, Owners: true, Chdir: true, Specials: true, EmptyPath: false, Unclean: true, AvoidRootOps: true, Handles: true, Temps: true}
+	gcfg := gen.Cfg{Root: "/w", Names: []string{"a", "b", "c"}, Depth: 3, NoChange: true, Links: true, Owners: true, Chdir: true, Specials: true, EmptyPath: false, Unclean: true, AvoidRootOps: true, Handles: true, Temps: true, Walk: true}
 	g := gen.New(gcfg, r)
 	env, renv := fsx.NewEnv(bp), fsx.NewEnv(ref)
 	var hist []string
